@@ -133,3 +133,15 @@ M("c03-strict-containment", "C03", "plot/utils.py", "                    ok_x = 
 M("c03-origin-unit", "C03", "plot/map.py", "    xyz = position - origin", "    xyz = position - (origin if origin.unit == position.unit else type(origin)(**{c: a.values for c, a in origin._xyz.items()}, unit=position.unit))", "origin given in another unit is not converted")
 M("c03-mask-first-layer", "C03", "plot/map.py", "    mask = np.isnan(binned[-1, ...])", "    mask = np.isnan(binned[-1, ...]) | (binned[0, ...] == 1.0)", "pixels showing the value 1.0 in the first layer are masked")
 M("c03-ix2-no-plus-one", "C03", "plot/utils.py", "            + 1,\n            nx,\n        )", "            + 0,\n            nx,\n        )", "x footprint excludes its last pixel column")
+
+# ---------------------------------------------------------------- C11
+M("c11-unfix-slab", "C11", "plot/map.py", "    selection_distance = 0.5 * diagonal * cell_size\n    if thick:\n        selection_distance = selection_distance + 0.5 * dz\n", "    selection_distance = 0.5 * diagonal * (dz if thick else cell_size)\n", "slab pre-selection ignores the cell size (the original defect)")
+M("c11-unfix-auto-dz", "C11", "plot/map.py", "        if thick:\n            # The depth range is given by the requested thickness, not by the data\n            zmin = -0.5 * dz.magnitude\n            zmax = zmin + dz.magnitude\n", "", "automatic window ignores dz (the original defect)")
+M("c11-no-zspacing", "C11", "plot/map.py", "        binned *= zspacing\n", "        binned *= 1.0\n", "sum not multiplied by the depth step")
+M("c11-no-unit-product", "C11", "plot/map.py", '            layer["unit"] = layer["unit"] * dataz.unit', '            layer["unit"] = layer["unit"] * 1', "unit of a column sum not multiplied by the length unit")
+M("c11-z-int", "C11", "plot/map.py", '            resolution["z"] = round((zmax - zmin) / (0.5 * (xspacing + yspacing)))', '            resolution["z"] = int((zmax - zmin) / (0.5 * (xspacing + yspacing)))', "depth resolution truncated instead of rounded")
+M("c11-zcenters-shift", "C11", "plot/map.py", "            zmin + 0.5 * zspacing, zmax - 0.5 * zspacing, resolution[\"z\"]\n", "            zmin + 1.0 * zspacing, zmax - 0.0 * zspacing, resolution[\"z\"]\n", "depth samples shifted by half a step")
+M("c11-factor-sum-only", "C11", "plot/map.py", '    if thick and ((operation == "sum") or (operation == "nansum")):', '    if thick and (operation == "sum"):', "nansum neither scaled nor given the length unit")
+M("c11-mean-scaled", "C11", "plot/map.py", '    if thick and ((operation == "sum") or (operation == "nansum")):', '    if thick and (operation in ("sum", "nansum", "mean")):', "mean also multiplied by the depth step")
+M("c11-reduce-axis", "C11", "plot/map.py", "    binned = getattr(np, operation)(binned, axis=1)", "    binned = getattr(np, operation)(binned[:, ::2, ...] if binned.shape[1] > 3 else binned, axis=1)", "every second depth sample dropped for deep stacks")
+M("c11-iz-footprint", "C11", "plot/utils.py", "            + 1,\n            nz,\n        )", "            + 0,\n            nz,\n        )", "depth footprint excludes its last sample")
